@@ -424,3 +424,74 @@ def _seeks(ctx, res, rule):
                   "seek ends on the first entry >= target from every state, on real restart arrays",
                   "; ".join(problems[:2]), fn["block_iter_seek"].loc(fn["block_iter_seek"].body))
     res.tables.setdefault("block_seek_runs", {})[rule] = total
+
+
+# ---- arbitrary bytes handed to the block reader (C19.R2) ----------------------------------------------------------------
+def malformed(ctx, res, rule):
+    """block_init, block_iter_init, block_iter_seek_to_first and a walk with block_iter_next over byte strings that are not
+    blocks: lengths 0..24, filled with zeros, with 0xff or with a counting pattern, and with every interesting value in the
+    last four bytes (where a block keeps its restart count).  The code may stop the process through an assertion or walk
+    to the end; it must never read or write outside the bytes it was given (or outside a live allocation)."""
+    prog = ctx.prog
+    fn = {n: prog.need(n, BL) for n in ("block_init", "block_iter_init", "block_iter_seek_to_first", "block_iter_get", "block_iter_next")}
+    for g in fn.values():
+        res.saw(g)
+    res.floor(rule, 3)
+    sizes = list(range(0, 13)) + [16, 20, 24]
+    counts = [None, 0, 1, 2, 3, 5, 6, 7, 0x3fffffff, 0x40000000, 0x7fffffff, 0x80000000, 0xfffffffe, 0xffffffff]
+    fills = {"zero": lambda i: 0, "ones": lambda i: 0xff, "count": lambda i: (i * 37 + 1) & 0xff}
+    if ctx.tier != "thorough":
+        sizes = [0, 3, 4, 7, 8, 9, 12, 16, 24]
+    outcome = {"assert": 0, "clean": 0}
+    import time as _time
+    for fname, fill in fills.items():
+        problems = []
+        und = None
+        for size in sizes:
+            for cnt in counts:
+                if cnt is not None and size < 4:
+                    continue
+                data = [fill(i) for i in range(size)]
+                if cnt is not None:
+                    for j in range(4):
+                        data[size - 4 + j] = (cnt >> (8 * j)) & 0xff
+                I = M.MemInterp(prog, BL)
+                I.max_paths = 5000
+                I.fuel = 300
+                I.deadline = _time.time() + 8
+                st = I.new_state()
+                h = st.ext["heap"]
+                k0 = h.next
+                h.allocs[k0] = [size, True, False]
+                h.next = k0 + 1
+                for i, c in enumerate(data):
+                    st.mem[(("A", k0), i)] = _cbits(c)
+                where = "%d bytes (%s%s)" % (size, fname, ", last four = %#x" % cnt if cnt is not None else "")
+                try:
+                    for s, blk in I.call(st, fn["block_init"], [B.Ptr(("A", k0), 0), size, 0]):
+                        for s, bi in I.call(s, fn["block_iter_init"], [blk]):
+                            states = [s2 for s2, _ in I.call(s, fn["block_iter_seek_to_first"], [bi])]
+                            steps = 0
+                            while states and steps < 12:
+                                steps += 1
+                                nxt = []
+                                for s in states:
+                                    for s2, r in I.call(s, fn["block_iter_next"], [bi]):
+                                        if _truth(s2, r) is True:
+                                            nxt.append(s2)
+                                states = nxt[:4]
+                    outcome["clean"] += 1
+                except M.MemFault as e:
+                    if "assertion fails" in str(e):
+                        outcome["assert"] += 1
+                    else:
+                        problems.append("%s: %s" % (where, e))
+                except BrokenAnalysis as e:
+                    und = "%s: %s" % (where, e)
+        if und and not problems:
+            res.undecided(rule, und)
+            continue
+        res.check(not problems, rule, "block reader:arbitrary-bytes:%s" % fname,
+                  "byte strings that are not blocks end in an assertion or a clean walk, never in an access outside the bytes given",
+                  "; ".join(problems[:2]), fn["block_init"].loc(fn["block_init"].body))
+    res.tables.setdefault("arbitrary_bytes_outcomes", {})[rule] = dict(outcome)
